@@ -35,6 +35,8 @@ def nontrivial(kind, ins, outs):
             return False
         k = ops.index("k")
         return any(o[0] in "oO" for o in ops[:k])
+    if kind == "boot":
+        return "1" in ins[0]
     if kind == "ret":
         return ins[2] != "none"
     return True
